@@ -264,8 +264,15 @@ def run(pid, tier, seed):
     owner = []
     infos = []
     not_aborted = []
-    for s in scns:
-        raw, final, rc = run_child(bdir, s, work)
+    # the last few scenarios run against the library built WITHOUT thread support (QTLOGGER_NO_THREAD): there the logger
+    # is synchronous by construction, and the property is about the synchronous logger
+    nt = 5 if tier == "quick" else 30
+    bdir_nt = C.ensure_harness("nothread", ["drv_fatal"])
+    for i, s in enumerate(scns):
+        if i >= len(scns) - nt:
+            s.fatal_thread = "main"         # one thread only: a library without thread support is not to be shared
+            s.bgflush = False
+        raw, final, rc = run_child(bdir_nt if i >= len(scns) - nt else bdir, s, work)
         if rc != -signal.SIGABRT:
             not_aborted.append((s, rc))
         for j in range(len(s.sinks)):
